@@ -1,9 +1,88 @@
-(* Properties_C10.v — C10: streaming transcoding between JSON and CBOR
-   preserves the document.  Statements are added as the proofs land. *)
+(* Properties_C10.v — C10: streaming transcoding between JSON and CBOR preserves
+   the document.  Statements only; proofs in TranscodeProof.v, which composes
+   the codec theorems of C02/C03/C04/C05/C14 through the pump model (Pump.v).
+
+   The float statements are parameterised by the shortest-digits oracle [sh]
+   (strconv), exactly as in C03: [float_ok b] are the floats for which the
+   oracle's digits re-read as [fnorm b] (hypothesis Hflt, validated per case by
+   the correspondence run); the *_float_free statements carry no hypothesis. *)
 From Coq Require Import List ZArith.
-Require Import Tok CborEnc CborDec JsonEnc JsonDec Pump.
+Require Import Tok TokGrammar TokGrammarProof CborSpec CborEnc CborDec CborParse CborRoundtrip JsonEnc JsonDec JsonParse
+               JsonNumProof JsonEncProof EncAccept Pump TranscodeProof.
 Import ListNotations.
 Open Scope Z_scope.
+
+(* ---- JSON text -> CBOR ---------------------------------------------------------- *)
+(* total on valid JSON; consumes exactly one item, produces exactly one item (out = the RFC encoding of the
+   value tree read from the text), which decodes to the same tokens up to CBOR's spelling of non-negative
+   integers (canon_tok: Int n >= 0 reads back as Uint n) *)
+Theorem C10_json_to_cbor : forall c bs toks rest,
+  jdec_run bs = JDOk toks rest -> str_cap_ok toks = true ->
+  exists out,
+    pump_j2c bs = PumpOk out rest /\
+    (forall tail, exists a, dec_run c (out ++ tail) = DOk (map canon_tok toks) tail a) /\
+    (exists n, jparse_item true bs = POk n rest /\ toks = flatten n /\ out = rfc_enc n /\
+               parse_item c out = POk (canon n) []) /\
+    (exists used, bs = used ++ rest /\ used <> []).
+Proof. exact pump_j2c_value. Qed.
+Print Assumptions C10_json_to_cbor.
+
+(* an input error surfaces as a pump error, and only then *)
+Theorem C10_json_to_cbor_error_iff : forall bs,
+  pump_j2c bs = PumpErr <-> exists e, jparse_item true bs = PErr e.
+Proof. exact pump_j2c_err_iff. Qed.
+
+(* ---- CBOR -> JSON text ---------------------------------------------------------- *)
+Theorem C10_cbor_to_json : forall sh (float_ok : Z -> Prop) fnorm,
+  (forall b rest, float_ok b -> terminator_ok rest ->
+    exists first more, emit_float sh b = Some [first :: more] /\
+      (first = 45 \/ is_digit first = true) /\ is_leaf (fnorm b) = true /\
+      dec_number first (more ++ rest) = inl (leaf_tok (fnorm b), rest) /\
+      match fnorm b with VInt _ | VUint _ | VFlt _ => True | _ => False end) ->
+  forall o c bs toks rest a,
+    ws_opts o -> bytes_ok bs -> dec_run c bs = DOk toks rest a ->
+    Forall (jtok_ok float_ok) toks -> json_keys_ok toks = true ->
+    exists out,
+      pump_c2j sh o c bs = PumpOk out rest /\
+      jdec_run out = JDOk (map (jnorm_tok fnorm) toks) (jtail o toks) /\
+      (exists n, parse_item c bs = POk n rest /\ toks = flatten n /\
+                 exists fuel, jpvalue fuel false out = POk (jnorm fnorm n) (jtail o toks)).
+Proof. exact pump_c2j_value. Qed.
+Print Assumptions C10_cbor_to_json.
+
+(* the error side, for any oracle: the pump fails exactly when the input is not well-formed CBOR or the
+   document is outside JSON's data model (byte strings, non-finite floats, non-string keys) *)
+Theorem C10_cbor_to_json_error_iff : forall sh o c bs,
+  pump_c2j sh o c bs = PumpErr <->
+  (exists e toks a, dec_run c bs = DFail e toks a) \/
+  (exists toks rest a, dec_run c bs = DOk toks rest a /\
+                       (json_repr_all toks = false \/ json_keys_ok toks = false)).
+Proof. exact pump_c2j_err_iff. Qed.
+
+(* ---- round trips, float-free instances (no hypothesis at all) --------------------- *)
+Theorem C10_json_cbor_json_same_document : forall sh o c bs toks rest,
+  ws_opts o -> jdec_run bs = JDOk toks rest -> str_cap_ok toks = true ->
+  forallb jtok_plain toks = true -> forallb str_valid toks = true ->
+  exists cb out2,
+    pump_j2c bs = PumpOk cb rest /\ pump_c2j sh o c cb = PumpOk out2 [] /\
+    jdec_run out2 = JDOk toks (jtail o toks).
+Proof. exact pump_roundtrip_jcj_same_float_free. Qed.
+Print Assumptions C10_json_cbor_json_same_document.
+
+(* ---- CBOR -> CBOR (re-encoding) ---------------------------------------------------- *)
+Theorem C10_cbor_to_cbor : forall c bs toks rest a,
+  bytes_ok bs -> dec_run c bs = DOk toks rest a ->
+  cbor_keys_ok toks = true -> str_cap_ok toks = true ->
+  exists out,
+    pump_c2c c bs = PumpOk out rest /\
+    (forall tail, exists a', dec_run c (out ++ tail) = DOk toks tail a') /\
+    (exists n, parse_item c bs = POk n rest /\ parse_item c out = POk n [] /\ toks = flatten n /\ out = rfc_enc n) /\
+    (exists used, bs = used ++ rest /\ used <> []).
+Proof. exact pump_c2c_value. Qed.
+Theorem C10_cbor_to_cbor_error_iff : forall c bs,
+  pump_c2c c bs = PumpErr <->
+  (exists e, parse_item c bs = PErr e) \/ (exists n rest, parse_item c bs = POk n rest /\ ~ wf_keys key_cbor n).
+Proof. exact pump_c2c_err_iff. Qed.
 
 (* sanity (kernel-evaluated) *)
 Example C10_j2c_example : pump_j2c [91; 49; 44; 32; 34; 120; 34; 93; 32] = PumpOk [159; 1; 97; 120; 255] [32].
